@@ -51,4 +51,20 @@ theorem assignMulti_eq_go (s : PS) (lhs : List Cell) (rhs : List Rhs) :
   unfold assignMulti goAssign
   simp only [multiLhs_eq, multiRhs_eq, multiStore_eq]
 
+set_option linter.unusedSimpArgs false in
+/-- `assign2` (the four variable/place combinations of the source, for two places that are neither
+    map elements nor `_`) = the same two phases -/
+theorem assign2_eq_go (s : PS) (c0 c1 : Cell) (r0 r1 : Rhs) :
+    assign2 s c0 c1 r0 r1 = goAssign s [c0, c1] [r0, r1] := by
+  unfold assign2 goAssign
+  simp only [resolveAll, evalAll, placefun]
+  cases c0 <;> cases c1 <;>
+    simp only [isVarCell, resolve_var, bind, Except.bind, pure, Except.pure, storeAll]
+  all_goals repeat' split
+  all_goals try subst_vars
+  all_goals try simp_all [storeAll]
+  all_goals try rfl
+  all_goals (rename_i h; cases h; rfl)
+
+
 end C02Multi
